@@ -219,12 +219,14 @@ func runC18(c *Ctx) {
 	st0 := &ai.State{Mem: map[string]ai.Val{}}
 	putM(st0, c18model{})
 	outs, err := ai.Explore(env, initFn, []ai.Val{recv, ai.Tok{Name: "sf"}, ai.Tok{Name: "it1"}, ai.Tok{Name: "it2"}}, st0)
-	if err != nil || len(outs) != 1 || outs[0].Panic {
-		c.Undecided("C18.T5", initFn, "Init establishes the initial state", nil, fmt.Sprintf("cannot interpret Init: %v (%d outcomes)", err, len(outs)))
+	// Init may consult the environment (a source's reset capability resolved once, v_mixer.go): every outcome is an
+	// initial state of its own, and a state remembers which one it descends from ("model.init")
+	initStates, initErr := c18InitStates(outs, err)
+	if initErr != "" {
+		c.Undecided("C18.T5", initFn, "Init establishes the initial state", nil, "cannot interpret Init: "+initErr)
 		return
 	}
-	initState := outs[0].State
-	initState.Events = nil
+	initState := initStates[0]
 	implKey := func(st *ai.State) string {
 		var ks []string
 		for k, v := range st.Mem {
@@ -235,9 +237,15 @@ func runC18(c *Ctx) {
 		sort.Strings(ks)
 		return strings.Join(ks, ";")
 	}
-	stateKey := func(st *ai.State) string { return implKey(st) + "||" + getM(st).key() }
-	initImpl := implKey(initState)
-	c.Role("mixer.initial-state", initImpl, mixer.Obj().Pos())
+	stateKey := func(st *ai.State) string {
+		return implKey(st) + "||" + getM(st).key() + fmt.Sprint(c18InitOf(st, 64))
+	}
+	var initImpls []string
+	for _, is := range initStates {
+		initImpls = append(initImpls, implKey(is))
+	}
+	initImpls = c18DistinctInits(initStates, initImpls)
+	c.Role("mixer.initial-state", strings.Join(initImpls, " | "), mixer.Obj().Pos())
 	// T8: Init sets every control field (booleans and integers of the Mixer and of the structs embedded in it by value).
 	// A field Init leaves alone keeps the value of the Mixer's previous use: the first merge of a Mixer works (zero
 	// value), a Mixer that is initialised again continues in the middle of its previous merge.
@@ -255,8 +263,11 @@ func runC18(c *Ctx) {
 				}
 			case *types.Basic:
 				if u.Info()&(types.IsBoolean|types.IsInteger) != 0 {
-					if _, set := initState.Mem[path]; !set {
-						unset = append(unset, path)
+					for _, is := range initStates {
+						if _, set := is.Mem[path]; !set {
+							unset = append(unset, path)
+							break
+						}
 					}
 				}
 			}
@@ -274,6 +285,12 @@ func runC18(c *Ctx) {
 	seen := map[string]*ai.State{}
 	work := []*ai.State{initState}
 	seen[stateKey(initState)] = initState
+	for _, is := range initStates[1:] {
+		if _, dup := seen[stateKey(is)]; !dup {
+			seen[stateKey(is)] = is
+			work = append(work, is)
+		}
+	}
 	nTrans := 0
 	fresh := func(st *ai.State) *ai.State { n := st.Clone(); n.Events = nil; return n }
 	push := func(st *ai.State) {
@@ -420,6 +437,7 @@ func runC18(c *Ctx) {
 					fail("C18.T5", "Reset succeeds only when both inputs were reset", "Reset returns nil although a source was not reset")
 					continue
 				}
+				initImpl := initImpls[c18InitOf(o.State, len(initImpls))]
 				if got := implKey(o.State); got != initImpl {
 					fail("C18.T5", "successful Reset restores the Init state", "after a successful Reset the mixer differs from a freshly initialised one: "+diffKeys(initImpl, got))
 				}
